@@ -165,6 +165,7 @@ def run(tier, seed, replay=None):
     g = PlanGen(rng)
     n = 120 if tier == "quick" else 4000
     texts = []      # (block text, group key for header-invariance, variant label)
+    pis = {}
     for i in range(n):
         c = rng.random()
         plan = g.trait_args_plan() if c < 0.25 else (g.inherent() if c < 0.35 else (g.lifetime_keys_plan() if c < 0.5 else g.basic()))
@@ -194,6 +195,9 @@ def run(tier, seed, replay=None):
             if it and q.mode == "trait":
                 mm.patch = {"add_item": it}
             texts.append((q.block_text(bi), (i, bi), v))
+            # the renaming that turns the base presentation (v = 0) into this one, by plan parameter
+            pis[texts[-1][0]] = {"ty": [(m.names[p_], mm.names[p_]) for p_ in live if p_ not in mm.const_params and m.names[p_] != mm.names[p_]],
+                                 "co": [(m.names[p_], mm.names[p_]) for p_ in live if p_ in mm.const_params and m.names[p_] != mm.names[p_]]}
     import json, os
     cpath = os.path.join(C.VERIF, "corpus", PROP, "blocks.json")
     if os.path.exists(cpath):
@@ -221,6 +225,36 @@ def run(tier, seed, replay=None):
         wv = parse_sexpr(w)
         if wv and wv[0] == "canonwf":
             wf_of[i] = (wv[1] == "1", wv[2] == "1")
+    # instances of C06_renamed_permuted_same_header / C13_alpha_invariance: every renamed / re-declared presentation against its base
+    base_of = {}
+    for i in idx:
+        text, grp, v = texts[i]
+        if v == 0 and grp[0] != "corpus":
+            base_of[grp] = i
+    areqs, aidx = [], []
+    for i in idx:
+        text, grp, v = texts[i]
+        if v > 0 and grp in base_of and text in pis:
+            pi = pis[text]
+            flat = lambda ps: [x for ab in ps for x in ab]
+            pit = ("N", "Pi", [], [("N", "lt", [], []), ("N", "ty", flat(pi["ty"]), []), ("N", "co", flat(pi["co"]), [])])
+            areqs.append("alpha " + sexpr(dec[base_of[grp]][0]) + " " + sexpr(dec[i][0]) + " " + sexpr(pit))
+            aidx.append(i)
+    for i, resp in zip(aidx, C.run_lean(areqs) if areqs else []):
+        av = parse_sexpr(resp)
+        if not av or av[0] != "alpha":
+            rep.count("alpha:bad-response")
+            continue
+        wf, aok, form, textual, perm, same_hdr, aokh = (x == "1" for x in av[1:8])
+        if not (textual and perm):
+            rep.count("alpha:presentation-is-not-the-textual-renaming (lifetime order / reserved spellings)")
+            continue
+        if wf and (aok or aokh):
+            rep.count("theorem-instances-checked:C06_renamed_permuted_same_header")
+            if not same_hdr:
+                rep.broken.append("instance of C06_renamed_permuted_same_header false in the executable model: " + texts[i][0][:300])
+        else:
+            rep.count("theorem-not-applicable:canonWF=%d alphaOK=%d" % (wf, aok))
     headers = {}
     for i, resp in zip(idx, lres):
         text, grp, v = texts[i]
